@@ -6,6 +6,7 @@ import Driver.C20
 import Driver.Conv
 import Driver.View
 import Driver.Arr
+import Driver.C16
 import MdspanVerif.Model.ValidB
 open Mdspan Drv
 
@@ -20,6 +21,7 @@ def step (line : String) : String :=
   | "c20" :: kind :: t :: rest => c20Line kind t rest
   | "view" :: kind :: ty :: rest => viewLine kind ty rest
   | "arr" :: kind :: _ :: rest => arrLine kind rest
+  | "c16" :: fam :: rest => c16Line fam rest
   | "conv" :: kind :: _ :: rest => convLine kind rest
   | "mapeq" :: kind :: _ :: rest => mapeqLine kind rest
   | "dot" :: rest =>
